@@ -32,6 +32,18 @@ Theorem C18_replayed_weights : forall mx live reqs, wf_reqs mx reqs ->
 Proof. exact MiscC18.replayed_weights. Qed.
 Print Assumptions C18_replayed_weights.
 
+(* the live active set the replay falls back to never shows in the result *)
+Theorem C18_replay_live_irrelevant : forall mx live1 live2 reqs, wf_reqs mx reqs ->
+  replay mx live1 st0 (accepted mx st0 reqs) = replay mx live2 st0 (accepted mx st0 reqs).
+Proof. exact MiscC18.replay_live_irrelevant. Qed.
+Print Assumptions C18_replay_live_irrelevant.
+
+(* the replay has exactly one state per recorded history entry *)
+Theorem C18_replay_length : forall mx live reqs, wf_reqs mx reqs ->
+  length (replay mx live st0 (accepted mx st0 reqs)) = length (accepted mx st0 reqs).
+Proof. exact MiscC18.replay_length. Qed.
+Print Assumptions C18_replay_length.
+
 Example C18_nonvacuous :
   let reqs := [[0; 0]; [5; 5]; [0; 1]; [1; 0]] in
   accepted [1; 2] st0 reqs = [[0; 0]; [0; 1]; [1; 0]] /\
